@@ -1677,7 +1677,12 @@ class ShortcutNode(ListNode):
                 last_val = p[0].nodes[-1]
         if last_val.value is None:
             raise ValueError(f"Repeat cannot follow a jump. Given: {list(p)}")
-        self._nodes += [copy.deepcopy(last_val) for i in range(repeat_num)]
+        for i in range(repeat_num):
+            node = copy.deepcopy(last_val)
+            # the copies only exist through the shortcut: the comments stay with the original
+            if node.padding is not None:
+                node.padding = PaddingNode(" ")
+            self._nodes.append(node)
 
     def _expand_multiply(self, p):
         self._nodes = self._get_last_node(p)
